@@ -173,13 +173,50 @@ func drawC06(t *rapid.T) C06Case {
 		c.Runs = 24
 	}
 	v := rapid.SampledFrom(j.Commodities).Draw(t, "valuation")
-	c.Class = rapid.SampledFrom([]string{"balance", "balance", "balance", "print", "print", "check-write", "transcode", "weights", "returns"}).Draw(t, "class")
+	c.Class = rapid.SampledFrom([]string{"balance", "balance", "balance", "print", "print", "check-write", "transcode", "weights", "returns", "register", "register"}).Draw(t, "class")
 	valued := false
 	switch c.Class {
 	case "balance":
 		f := gen.DrawBalFlags(t, j, gen.FlagOpts{Mappings: true, Hide: true, Remap: true, Filters: true, Valuation: true})
 		valued = f.Valuation != ""
 		c.Argv = append(append([]string{"balance"}, f.Args()...), tree.Main)
+	case "register":
+		f := gen.DrawBalFlags(t, j, gen.FlagOpts{Mappings: true, Remap: true, Valuation: true})
+		args := []string{"register", "--color=false"}
+		if f.From != nil {
+			args = append(args, "--from", f.From.String())
+		}
+		if f.To != nil {
+			args = append(args, "--to", f.To.String())
+		}
+		if fl := ref.IntervalFlags[f.Interval]; fl != "" {
+			args = append(args, fl)
+		}
+		if f.Last != 0 {
+			args = append(args, "--last", fmt.Sprint(f.Last))
+		}
+		if f.Valuation != "" {
+			args = append(args, "-v", f.Valuation)
+			valued = true
+		}
+		for _, m := range f.Mappings {
+			args = append(args, "-m", m.Arg())
+		}
+		for _, r := range f.Remap {
+			args = append(args, "--remap", r)
+		}
+		for _, fl := range []string{"-s", "-c", "-d", "-a", "-k"} {
+			if rapid.IntRange(0, 2).Draw(t, "reg"+fl) == 0 {
+				args = append(args, fl)
+			}
+		}
+		if rapid.IntRange(0, 3).Draw(t, "regSource") == 0 && len(j.Accounts) > 0 {
+			args = append(args, "--source", "^"+ref.AccountType(rapid.SampledFrom(j.Accounts).Draw(t, "regSourceAcc")))
+		}
+		if rapid.IntRange(0, 3).Draw(t, "regDest") == 0 && len(j.Accounts) > 0 {
+			args = append(args, "--dest", "^"+ref.AccountType(rapid.SampledFrom(j.Accounts).Draw(t, "regDestAcc")))
+		}
+		c.Argv = append(args, tree.Main)
 	case "print":
 		c.Argv = []string{"print", tree.Main}
 	case "check-write":
